@@ -100,7 +100,7 @@ def subsets(n, nonempty=True):
 
 class Built:
     def __init__(self, op, ref, tol=1e-10, rejects=None, cap=None, linear="complex", note="", adj_tol=None,
-                 dom_shape=None, tgt_shape=None):
+                 dom_shape=None, tgt_shape=None, tag="", cond=1., inv_tol=None):
         self.op = op              # the nifty operator
         self.ref = ref            # numpy reference definition of TIMES (or None: consistency checks only)
         self.tol = tol            # tolerance of operator-vs-reference (documented accuracy of the operator)
@@ -111,6 +111,9 @@ class Built:
         self.note = note
         self.dom_shape = dom_shape
         self.tgt_shape = tgt_shape
+        self.tag = tag            # semantic discriminator that goes into finding keys
+        self.cond = cond          # known condition number of the constructed operator (for the inverse checks)
+        self.inv_tol = inv_tol
 
 
 REGISTRY = {}
@@ -139,11 +142,15 @@ def _contraction():
         out = []
         for d in doms:
             for sp in [None] + subsets(len(d)):
+                # volume weights exist only for structured spaces: power != 0 over an UnstructuredDomain is outside the premise
+                unstructured = any(d[i][0] == "U" for i in (range(len(d)) if sp is None else sp))
                 for p in powers:
-                    out.append(dict(dom=d, spaces=sp, power=p, via="Contraction"))
-                out.append(dict(dom=d, spaces=sp, power=1, via="Integration"))
-            if len(d) >= 2:       # int and negative space indices are documented too
-                out.append(dict(dom=d, spaces=1, power=1, via="Contraction"))
+                    if p == 0 or not unstructured:
+                        out.append(dict(dom=d, spaces=sp, power=p, via="Contraction"))
+                if not unstructured:
+                    out.append(dict(dom=d, spaces=sp, power=1, via="Integration"))
+            if len(d) >= 2:       # a plain int is documented too
+                out.append(dict(dom=d, spaces=1, power=0, via="Contraction"))
         return out
 
     def build(c, seed):
@@ -167,10 +174,11 @@ def _contraction():
 def _dofdist():
     def configs(tier):
         out = []
-        for tgt, space, dd in [([U3], 0, [0, 0, 0]), ([U3], 0, [0, 1, 2]), ([U3], 0, [0, 1, 1]), ([U3], 0, [0, 1, 0]),
-                               ([R3], 0, [0, 0, 1]), ([U4], 0, [0, 1, 1, 2]),
+        # the dofdex lives on a structured Space (it needs pixel volumes)
+        for tgt, space, dd in [([R3], 0, [0, 0, 0]), ([R3], 0, [0, 1, 2]), ([R3], 0, [0, 1, 1]), ([R3], 0, [0, 1, 0]),
+                               ([R3], 0, [0, 0, 1]), ([R4], 0, [0, 1, 1, 2]),
                                ([R22], 0, [[0, 1], [1, 2]]), ([R23], 0, [[0, 1, 1], [1, 2, 2]]),
-                               ([U2, U3], 1, [0, 1, 0]), ([U3, U2], 0, [0, 1, 1]), ([R2, U3, U2], 1, [0, 0, 1]),
+                               ([U2, R3], 1, [0, 1, 0]), ([R3, U2], 0, [0, 1, 1]), ([R2, H3, U2], 1, [0, 0, 1]),
                                ([R2, R22], 1, [[0, 1], [1, 0]]), ([GL23, U2], 0, [0, 0, 0, 1, 1, 1]),
                                ([GL23], 0, [0, 1, 0, 1, 2, 2])]:
             out.append(dict(tgt=tgt, space=space, dofdex=dd, how="explicit"))
@@ -340,7 +348,8 @@ def _einsum():
         ko = None if c["key_order"] is None else tuple(c["key_order"])
         op = I.LinearEinsum(dom, mf, c["ss"], key_order=ko)
         order = ko if ko is not None else tuple(sorted(arrs))
-        return Built(op, lambda x: G.loop_einsum(c["nss"], *[arrs[k] for k in order], x), cap=3)
+        return Built(op, lambda x: G.loop_einsum(c["nss"], *[arrs[k] for k in order], x), cap=3,
+                     tag="mf=%s" % ("complex" if c["mf_complex"] else "real"))
     return configs, build
 
 
@@ -389,7 +398,7 @@ def _padder():
             for a, N in zip(ax, c["new"]):
                 x = _pad_axis(x, a, N, c["central"])
             return x
-        return Built(op, ref, cap=3)
+        return Built(op, ref, cap=3, tag="central=%s" % c["central"])
     return configs, build
 
 
@@ -656,13 +665,13 @@ def _sht():
         I = ift()
         sp = c["space"] if c["space"] is not None else 0
         lm = c["dom"][sp]
-        tspec = c["tgt"] if c["tgt"] is not None else ["GL", lm[1] + 1, 2 * lm[1] + 1]   # documented default: GL of sufficient resolution
+        tspec = c["tgt"] if c["tgt"] is not None else ["GL", lm[1] + 1, 2 * lm[2] + 1]   # documented default: GL of sufficient resolution
         tgt = None if c["tgt"] is None else mkspace(c["tgt"])
         op = getattr(I, c["cls"])(mkdom(c["dom"]), tgt, c["space"])
         full = list(G.tuple_shape(c["dom"]))
         a = G.axes_of(c["dom"], sp)[0]
         tshape = tuple(full[:a] + list(G.spec_shape(tspec)) + full[a + 1:])
-        return Built(op, _sht_ref(c["dom"], sp, tspec), cap=3, tgt_shape=tshape, tol=1e-9)
+        return Built(op, _sht_ref(c["dom"], sp, tspec), cap=3, tgt_shape=tshape, tol=1e-9, tag="target=%s" % tspec[0])
     return configs, build
 
 
@@ -702,7 +711,7 @@ def _smooth():
         def ref(x):
             y = G.dft_axes(G.dft_axes(x, ax, -1) * ker.reshape(shp), ax, +1) / np.prod(spec[1])
             return y if np.iscomplexobj(x) else y.real
-        return Built(op, ref, cap=3)
+        return Built(op, ref, cap=3, cond=float(1. / ker.min()))
     return configs, build
 
 
@@ -781,7 +790,7 @@ def _outer():
         f = vals(fshape, seed, 5, c["f_complex"])
         op = I.OuterProduct(mkdom(c["dom"]), fld(mkdom(c["fdom"]), f))
         nd = len(G.tuple_shape(c["dom"]))
-        return Built(op, lambda x: f.reshape(fshape + (1,) * nd) * x, cap=3)
+        return Built(op, lambda x: f.reshape(fshape + (1,) * nd) * x, cap=3, tag="field=%s" % ("complex" if c["f_complex"] else "real"))
     return configs, build
 
 
@@ -1073,7 +1082,7 @@ def _vdot():
         else:
             fl = fld(mkdom(c["dom"]), f)
             ref = lambda x: np.sum(np.conj(f) * x)
-        return Built(I.VdotOperator(fl), ref, cap=3)
+        return Built(I.VdotOperator(fl), ref, cap=3, tag="field=%s" % ("complex" if c["fc"] else "real"))
     return configs, build
 
 
@@ -1083,6 +1092,8 @@ def _wapp():
         out = []
         for d in [[R3], [R23], [R2, GL23], [U2, R3], [HP1, R2]]:
             for sp in [None] + subsets(len(d)):
+                if any(d[i][0] == "U" for i in (range(len(d)) if sp is None else sp)):
+                    continue       # no volume on unstructured domains
                 for p in T(tier, [1, -1, 2], [0, 1, -1, 2, -2]):
                     out.append(dict(dom=d, spaces=sp, power=p))
         return out
@@ -1276,7 +1287,9 @@ def _matprod():
             rest = xm.shape[len(act):]
             y = (M2 @ xm.reshape(n, -1)).reshape(ashape + rest)
             return np.moveaxis(y, list(range(len(act))), act)
-        return Built(op, ref, cap=3)
+        return Built(op, ref, cap=3, tag="spaces=%s,flatten=%s,sparse=%s,matrix=%s" % (
+            "None" if sp is None else ("int" if isinstance(sp, int) else ("sorted" if list(sp) == sorted(sp) else "unsorted")),
+            c["flatten"], c["sparse"], "complex" if c["mc"] else "real"))
     return configs, build
 
 
@@ -1353,7 +1366,7 @@ def _diag():
             op, dd = op.inverse, 1. / dd
         elif v == "adjoint-inverse":
             op, dd = op.adjoint.inverse, 1. / np.conj(dd)
-        return Built(op, lambda x: dd * x, cap=15)
+        return Built(op, lambda x: dd * x, cap=15, tag="view=%s,diag=%s" % (v, "complex" if c["dc"] else "real"))
     return configs, build
 
 
@@ -1471,7 +1484,7 @@ def _sandwich():
         op = I.SandwichOperator.make(bun, cheese)
         Mx = B.conj().T @ C @ B
         shp = op.domain.shape
-        return Built(op, lambda x: (Mx @ x.reshape(-1)).reshape(shp), cap=3)
+        return Built(op, lambda x: (Mx @ x.reshape(-1)).reshape(shp), cap=3, tag="bun=%s,cheese=%s" % (b, ch))
     return configs, build
 
 
@@ -1493,7 +1506,7 @@ def _funcconv():
         sp = c["space"] if c["space"] is not None else 0
         spec = c["dom"][sp]
         if spec[0] != "RG":
-            return Built(op, None, cap=3, note="sphere: consistency only")
+            return Built(op, None, cap=3, note="sphere: consistency only", tag="space=%s" % spec[0])
         # y_i = sum_j K(|i - j|_periodic) x_j / sum_j K(|j|_periodic): kernel normalised to unit integral
         ker = func(G.k_lengths(spec[1], spec[2]))
         ker = ker / ker.sum()
@@ -1505,7 +1518,7 @@ def _funcconv():
             for shift in np.ndindex(*spec[1]):
                 y = y + ker[shift] * np.roll(x, shift, axis=ax)
             return y
-        return Built(op, ref, cap=3)
+        return Built(op, ref, cap=3, tag="space=RG")
     return configs, build
 
 
@@ -1528,6 +1541,63 @@ def _invenable():
             Mx = mv.T @ mv + np.eye(3)
         ic = I.GradientNormController(tol_abs_gradnorm=1e-13, iteration_limit=50)
         approx = I.ScalingOperator(dom, 0.5) if c["approx"] else None
-        op = I.InversionEnabler(A, I.ConjugateGradient(ic), approximation=approx)
-        return Built(op, lambda x: Mx @ x, cap=15, note="inverse by CG (tolerance 1e-8)")
+        op = I.InversionEnabler(A, ic, approximation=approx)
+        return Built(op, lambda x: Mx @ x, cap=15, note="inverse by CG", inv_tol=1e-7, cond=float(np.linalg.cond(Mx)))
+    return configs, build
+
+
+@register("WienerFilterCurvature")
+def _wfc():
+    def configs(tier):
+        return [dict(sampling=s, complex_R=cr) for s in (False, True) for cr in (False, True)]
+
+    def build(c, seed):
+        I = ift()
+        dom = mkdom([R3])
+        mv = vals((2, 3), seed, 47, c["complex_R"])
+        R = I.LinearEinsum(dom, I.MultiField.from_dict({"a": fld(mkdom([U2, R3]), mv)}), "ij,j->i")
+        nv, sv = vals((2,), seed, 53, False, positive=True), vals((3,), seed, 59, False, positive=True)
+        N = I.DiagonalOperator(fld(mkdom([U2]), nv), sampling_dtype=np.float64)
+        S = I.DiagonalOperator(fld(dom, sv), sampling_dtype=np.float64)
+        ic = I.GradientNormController(tol_abs_gradnorm=1e-13, iteration_limit=60)
+        op = I.WienerFilterCurvature(R, N, S, ic, ic if c["sampling"] else None)
+        Mx = mv.conj().T @ np.diag(1. / nv) @ mv + np.diag(1. / sv)      # R^H N^-1 R + S^-1
+        return Built(op, lambda x: Mx @ x, cap=15, inv_tol=1e-7, cond=float(np.linalg.cond(Mx)),
+                     tag="sampling=%s" % c["sampling"])
+    return configs, build
+
+
+@register("JaxLinearOperator")
+def _jaxlin():
+    def configs(tier):
+        out = []
+        for how in ("func_T", "domain_dtype"):
+            for mc in (False, True):
+                for multi in (False, True):
+                    for dt in ("f8", "c16"):
+                        out.append(dict(how=how, mc=mc, multi=multi, _dts=[dt]))
+        return out
+
+    def build(c, seed):
+        I = ift()
+        import jax.numpy as jnp
+        dt = np.float64 if c["_dts"][0] == "f8" else np.complex128
+        M = vals((2, 3), seed, 61, c["mc"])
+        Mj = jnp.array(M)
+        if c["multi"]:
+            dom = mkmdom({"a": [R3], "b": [U2]})
+            tgt = mkmdom({"u": [U2], "v": [U2]})
+            f = lambda x: {"u": Mj @ x["a"], "v": 2. * x["b"]}
+            fT = lambda y: {"a": Mj.T @ y["u"], "b": 2. * y["v"]}
+            ddt = {"a": dt, "b": dt}
+            ref = lambda x: {"u": M @ x["a"], "v": 2. * x["b"]}
+        else:
+            dom, tgt = mkdom([R3]), mkdom([U2])
+            f, fT, ddt = (lambda x: Mj @ x), (lambda y: Mj.T @ y), dt
+            ref = lambda x: M @ x
+        if c["how"] == "func_T":
+            op = I.JaxLinearOperator(dom, tgt, f, func_T=fT)
+        else:
+            op = I.JaxLinearOperator(dom, tgt, f, domain_dtype=ddt)
+        return Built(op, ref, cap=3, tag="how=%s,matrix=%s" % (c["how"], "complex" if c["mc"] else "real"))
     return configs, build
